@@ -155,6 +155,9 @@ func CoerceBool(v Value) bool {
 		return len(vc) > 0
 	case decimal.Decimal:
 		return vc.GreaterThan(decimal.Zero)
+	case *decimal.Decimal:
+		// (a nil pointer was handled above)
+		return vc.GreaterThan(decimal.Zero)
 	case Stringer:
 		return len(callString(vc)) > 0
 	case Number:
